@@ -55,7 +55,7 @@ def cap_cfgs():
     c.append(cap("WRITE", 16, 20, cnt=-20, **N, **{"_tier": "thorough"}))
     c.append(cap("WRITE_BYTE", 16, 20, **N))
     c.append(cap("ZEROOUT", 16, 48, **N))
-    c.append(cap("DISCARD", 16, 48, **N, **{"_tier": "thorough"}))   # same path as ZEROOUT
+    c.append(cap("DISCARD", 16, 48, **N))   # own ordering (capture BEFORE the backing discard): quick tier since seeded change C12_m10
     c.append(cap("WRITE", 16, 16, cnt=1, offmode=1, **N, **{"_tier": "thorough"}))   # quick: the write_byte query below covers OFFMODE=1
     c.append(cap("WRITE", 16, 16, cnt=1, BEYOND_END=None, **N))       # fixed by 5d7d5931
     c.append(cap("WRITE_BYTE", 16, 20, offmode=1, OFFBITS=16, **N))               # fixed by b20ebc92 (offset < 2^16; 2^40: thorough)
@@ -192,11 +192,17 @@ CHANOPS_BOUND = ("one call; set_blksize: tdb_data_size < 2^32, tdb_written -1/0/
            "block/count; close: 0..2 keys in the current key block, reference count 1..2, header state word symbolic, one injected "
            "failure per query (key block / header / superblock copy write, flush, device close, superblock read)")
 for _n, _f, _c in (("chanops_setblk", ["undo_set_blksize"], [dict(OP=1)]),
+                   ("chanops_setopt", ["undo_set_option"], [dict(OP=4, ARG=a) for a in range(6)]),
                    ("chanops_read", ["undo_read_blk64", "undo_read_blk"], [dict(OP=2, READ32=None), dict(OP=2)]),
                    ("chanops_close", ["undo_close", "write_undo_indexes"],
                     [dict(OP=3, FAIL=f) for f in (0, 1, 2, 3, 4, 5, 6)] + [dict(OP=3, FAIL=0, SIMUNF=None)])):
     HARNESSES.append(dict(name=_n, src="chanops.c", funcs=_f, configs=_c, unwind=10, backends=["default", "kissat"],
                           cap_quick=300, bound=CHANOPS_BOUND))
+for _h in HARNESSES:
+    if _h["name"] == "chanops_setopt":
+        _h["unwindset"] = ["strcmp.0:16", "vf_strtoul.0:12"]
+        _h["bound"] = ("undo_set_option(\"tdb_data_size\") with six concrete argument strings (valid 4096 / 1024, refused 512 / 2 MiB, "
+                       "malformed, NULL) from any tdb_data_size < 2^32 and any capture state (-1 fixed by option, 0 nothing captured, 1 file set up / re-opened)")
 
 HARNESSES.append(dict(name="main_undo_resize", src="main_undo_resize.c",
      extra_src=["lib/ext2fs/blknum.c"],
